@@ -51,10 +51,26 @@ Definition book_eqb (a b : tbl) : bool :=
   list_eqb Z.eqb (t_seatmap a) (t_seatmap b) && list_eqb tp_eqb (t_players a) (t_players b)
   && list_eqb osp_eqb (sm_seats (t_sm a)) (sm_seats (t_sm b)).
 
+(* a vacated (or never used) seat can be taken: reserving for a player who is not at the table,
+   on a table that is not full, naming an empty seat of the table or no seat at all, is not refused *)
+Definition must_succeed (pre : tbl) (o : mop) : bool :=
+  match o with
+  | MReserve j _ =>
+      match find_idx pre (jp_id j) with
+      | Some _ => false
+      | None => (length (t_players pre) <? t_max pre)%nat
+                && ((jp_seat j =? -1)
+                    || ((0 <=? jp_seat j) && (jp_seat j <? Z.of_nat (t_max pre))
+                        && (nth (Z.to_nat (jp_seat j)) (t_seatmap pre) 0 =? -1)))
+      end
+  | _ => false
+  end.
+
 (* a transition (pre, op, result, post) of the bookkeeping *)
-Definition C03_ok (pre : tbl) (r : res) (post : tbl) : bool :=
-  seat_inv post && match r with Err => book_eqb pre post | Ok => true end.
+Definition C03_ok (pre : tbl) (o : mop) (r : res) (post : tbl) : bool :=
+  seat_inv post && match r with Err => book_eqb pre post && negb (must_succeed pre o) | Ok => true end.
 
 (* which clause fails: 1 exclusivity/consistency after the operation, 2 a refused operation changed something *)
-Definition C03_diag (pre : tbl) (r : res) (post : tbl) : nat :=
-  if negb (seat_inv post) then 1 else match r with Err => if book_eqb pre post then 0 else 2 | Ok => 0 end.
+Definition C03_diag (pre : tbl) (o : mop) (r : res) (post : tbl) : nat :=
+  if negb (seat_inv post) then 1
+  else match r with Err => if negb (book_eqb pre post) then 2 else if must_succeed pre o then 4 else 0 | Ok => 0 end.
